@@ -21,7 +21,7 @@ def kill_specs(ctx, jdir):
     sends = [e for e in alpha if e["t"] == "send"]
     logon_in = next(e for e in frames if e["f"]["kind"] == "LOGON" and e["f"]["rel"] == 0)
     logon_out = next(e for e in sends if e["m"]["kind"] == "LOGON")
-    app = next(e for e in sends if e["m"]["kind"] == "APP")
+    app = next(e for e in sends if e["m"]["kind"] == "APP" and e["m"]["pay"] not in ("11=BADENC", "11=b"))
     rng = random.Random(ctx.seed * 13 + 9)
     npre = 10 if ctx.quick else 80
     pres = [[{"t": "attach"}], [{"t": "attach"}, logon_in], [{"t": "attach"}, logon_out, logon_in]]
@@ -67,7 +67,7 @@ def run_kill(ctx, out):
 
 
 def eval_kill(ctx, out, recs, specs):
-    slim = [{k: r[k] for k in ("id", "pre", "post", "bounds", "completed", "raised", "restored", "wire", "cont_error")} for r in recs]
+    slim = [{k: r[k] for k in ("id", "pre", "post", "bounds", "completed", "raised", "restored", "live2", "restored2", "wire", "cont_error")} for r in recs]
     verd = tlc.evaluate(ctx.sub("evalk"), "KillEval", slim, shard_size=max(20, len(slim) // 16 + 1), jobs=16, timeout=1200)
     for r, v, sp in zip(recs, verd, specs):
         out.traces += 1
